@@ -905,6 +905,8 @@ class Interp:
             if (modn, attr) in self.cfg.module_consts:
                 v = self.cfg.module_consts[(modn, attr)]
                 return v(self) if callable(v) else v
+            if r[1] in self.cfg.ext_consts:
+                return self.cfg.ext_consts[r[1]]
             return Ext(r[1])
         if r[0] == "const":
             return self.module_const(r[1], r[3], r[2])
@@ -1510,6 +1512,8 @@ class Interp:
 
     def index(self, v, idx):
         v = self.resolve_seq(v)
+        if isinstance(idx, SV) and idx.k == "bool":
+            idx = SV(z3.If(idx.e, 1, 0), "int")          # bool is an int subclass: xs[flag]
         if type(idx).__name__ == "SliceVal":
             return self.slice(v, idx.lo, idx.hi, idx.step)
         if isinstance(v, ByteArr):
